@@ -125,7 +125,7 @@ func (reader *SSTableReader) Scan() (SSTableIteratorI, error) {
 
 		err = dataReader.Open()
 		if err != nil {
-			return nil, fmt.Errorf("error in sstable '%s' while opening a scanner: %w", reader.opts.basePath, err)
+			return nil, fmt.Errorf("error in sstable '%s' while opening a scanner: %w", reader.opts.basePath, errors.Join(err, dataReader.Close()))
 		}
 
 		reader.miscClosers = append(reader.miscClosers, dataReader)
@@ -145,7 +145,7 @@ func (reader *SSTableReader) Scan() (SSTableIteratorI, error) {
 		}
 		err = dataReader.Open()
 		if err != nil {
-			return nil, fmt.Errorf("error in sstable '%s' while opening a scanner: %w", reader.opts.basePath, err)
+			return nil, fmt.Errorf("error in sstable '%s' while opening a scanner: %w", reader.opts.basePath, errors.Join(err, dataReader.Close()))
 		}
 
 		reader.miscClosers = append(reader.miscClosers, dataReader)
